@@ -116,12 +116,14 @@ package layer2
 // ... no data races"): what it hands out is read after the lock is released, so it must not alias the guarded storage
 // (SetBalancer overwrites the elements of the stored slice in place) - a copy with the same content
 //@ func (*Announce).GetStatus
+//@   concurrent
 //@   requires a != nil && lockstate(a.RWMutex) == 0
 //@   ensures lockstate(a.RWMutex) == 0 && lockframe(a.RWMutex)
 //@   ensures [noGuardedAlias] len(result) == 0 || fresh(result)
 //@   ensures [content] len(result) == len(a.ips[meta.String()]) && (forall i int :: 0 <= i && i < len(result) ==> result[i] == a.ips[meta.String()][i])
 //@   modifies fresh []IPAdvertisement, $held
 //@ func (*Announce).GetInterfaces
+//@   concurrent
 //@   requires a != nil && lockstate(a.RWMutex) == 0
 //@   ensures lockstate(a.RWMutex) == 0 && lockframe(a.RWMutex)
 //@   ensures [noGuardedAlias] fresh(result) && len(result) == len(a.nodeInterfaces)
